@@ -3145,6 +3145,9 @@ XPath::stepPattern(
 
         if(0 == context)
         {
+            // There is no node left for this step to match...
+            scoreHolder = eMatchScoreNone;
+
             // !!!!!!!!!!!!! Big ugly return here !!!!!!!!!!!!!!!!!!!
             return 0;
         }
@@ -3308,7 +3311,13 @@ XPath::stepPattern(
 
                 for(;;)
                 {
-                    score = theTester(*context, nodeType);
+                    // A document node is not the child of any node, so
+                    // it cannot match a step on the child axis.  (The step
+                    // generated for a leading '//' is not on the child axis.)
+                    score = nodeType == XalanNode::DOCUMENT_NODE &&
+                            stepType == XPathExpression::eMATCH_ANY_ANCESTOR ?
+                                eMatchScoreNone :
+                                theTester(*context, nodeType);
 
                     if (eMatchScoreNone != score)
                     {
@@ -3342,7 +3351,10 @@ XPath::stepPattern(
 
             const XalanNode::NodeType   nodeType = context->getNodeType();
 
-            if(nodeType != XalanNode::ATTRIBUTE_NODE)
+            // Neither an attribute nor a document node is the child
+            // of any node...
+            if(nodeType != XalanNode::ATTRIBUTE_NODE &&
+               nodeType != XalanNode::DOCUMENT_NODE)
             {
                 opPos += 3;
 
